@@ -18,6 +18,7 @@ type Gen struct {
 	epochN       int
 	touched      map[string]Sort
 	havocAllSeen bool
+	noCallN      int
 	dryHavocs    []*Epoch // havoc-all epochs of the dry run in progress
 	havocEpochs  []*Epoch // every havoc-all performed outside dry runs (their keep lists matter to `preserves` checks)
 	assertHit    map[*AssertSpec]bool // in-body assert clauses that matched a call site
